@@ -163,7 +163,7 @@ def _mask_case(args):
         # ---- KDE scatter / explicit positions / contour ----
         px = np.array([30.0, 90.0, 150.0])
         py = np.array([0.02, 0.08, 0.15])
-        for kde_type in ("histogram", "gauss", "multivariate"):
+        for kde_type in ("histogram", "gauss", "multivariate", "none"):
             for scale in ("linear", "log", "linear/log", "log/linear"):
                 xsc, ysc = (scale.split("/") if "/" in scale
                             else (scale, scale))
@@ -307,7 +307,7 @@ def _history_case(args):
         res = {}
         h, v = statistics.get_statistics(ds, features=["area_um", "deform"])
         res["stats"] = tuple(v)
-        for kt in ("histogram", "gauss", "multivariate"):
+        for kt in ("histogram", "gauss", "multivariate", "none"):
             res[f"scatter-{kt}"] = call(ds.get_kde_scatter, kde_type=kt)
             res[f"contour-{kt}"] = call(ds.get_kde_contour, kde_type=kt)
             if kws is not None:
